@@ -57,7 +57,7 @@ theorem client_enabled (c : QCfg) (hc : c.Struct) (p : Params) (s : St) (t : Nat
     (henq : cl.pc = .enq → 1 ≤ s.clPc ∨ s.queue.length < p.cap)
     (hwait : cl.pc = .wait → cl.acked = true) :
     (step c p s (.cstep t)).isSome = true := by
-  obtain ⟨_, _, _, _, h5, h6, _⟩ := hc
+  obtain ⟨_, _, _, _, h5, h6, _, _, _⟩ := hc
   simp only [step, ht, clientStep]
   cases hp : cl.pc with
   | idle => exact absurd hp hpc
@@ -85,7 +85,7 @@ theorem no_stuck (c : QCfg) (hc : c.Struct) (p : Params) (hcap : 0 < p.cap) (s :
     (∃ a : Act, a.internal = true ∧ (step c p s a).isSome = true) ∨
       (s.throttle = true ∧ s.clPc = 0) := by
   obtain ⟨ia, iw⟩ := inv_reachable h
-  have h7 : c.closeReleasesThrottle = true := hc.2.2.2.2.2.2
+  have h7 : c.closeReleasesThrottle = true := hc.2.2.2.2.2.2.1
   cases hw : s.wph with
   | collect =>
     left
@@ -105,6 +105,16 @@ theorem no_stuck (c : QCfg) (hc : c.Struct) (p : Params) (hcap : 0 < p.cap) (s :
     | cons t b =>
       have hlt := ia.bb t (by simp [hbt])
       simp [step, hw, hbt, List.getElem?_eq_getElem hlt]
+  | failing =>
+    left
+    refine ⟨.wfail, rfl, ?_⟩
+    have hb := iw.w3f hw
+    have hst : c.applyStopsAtFailure = true := hc.2.2.2.2.2.2.2.1
+    cases hbt : s.batch with
+    | nil => exact absurd hbt hb
+    | cons t b =>
+      have hlt := ia.bb t (by simp [hbt])
+      simp [step, hw, hbt, hst, List.getElem?_eq_getElem hlt]
   | acking =>
     left
     refine ⟨.wack, rfl, ?_⟩
